@@ -124,6 +124,7 @@ type textOpts struct {
 	noK       bool // no line carries the K tag
 	longLine  int  // >0: one line padded to that many bytes
 	lineBytes int  // payload size
+	align     int  // >0: every line, terminator included, is exactly this many bytes (a divisor of the 128 KiB read buffer)
 }
 
 // genText writes self-identifying lines "F<id> <n> <inc> <payload>".
@@ -152,6 +153,12 @@ func genText(r *run.Rand, id int, o textOpts) []byte {
 		}
 		if n-1 == longAt {
 			pl = o.longLine
+		}
+		if o.align > 0 {
+			pl = o.align - len(fmt.Sprintf("F%d %d %s ", id, n, inc)) - len(eol)
+			if pl < 0 {
+				pl = 0
+			}
 		}
 		pay := r.Bytes(pl, []byte("abcdefghijklmnopqrstuvwxyz0123456789 _-"))
 		if !o.noK && r.Bool() {
@@ -184,6 +191,14 @@ func randText(r *run.Rand, id int, big bool) []byte {
 	case 8:
 		o.lines = r.Range(3, 30)
 		o.longLine = r.Range(130*1024, 200*1024) // longer than the 128 KiB read-ahead buffer
+	case 9:
+		if r.Intn(3) == 0 {
+			// fixed-width records: a newline falls on the last byte of every completely filled 128 KiB read buffer
+			o.lines, o.align = r.Range(2100, 4500), []int{32, 64, 128}[r.Intn(3)]
+			o.blanks, o.noTrail, o.badIncs = false, false, false
+		} else {
+			o.lines = r.Range(1, 12)
+		}
 	default:
 		o.lines = r.Range(1, 12)
 	}
